@@ -15,7 +15,11 @@ def _IFFIRST(t):
 
 
 # columns whose element type is fixed by a declaration (tree type, enum, bool, float) as elements of vector columns
-_TREETYPES = [("MCQueryGen_typesvec.cfg", None, {"md10": True, "cap": {"quick": 150, "thorough": 1200}})]
+_TREETYPES = [("MCQueryGen_treetypesvec.cfg", None, {"md10": True, "cap": {"quick": 150, "thorough": 1200}})]
+
+
+# a scalar computed once per event written bare as a column of rows from a filtered sequence
+_LETROWS = [("MCQueryGen_letrows.cfg", None, {"cap": {"quick": 320, "thorough": 320}})]
 
 
 def _NONNULL(cfg):
@@ -38,11 +42,11 @@ SPECS = {
         clauses=["Accepts", "RowsMatch", "SpuriousFault", "Compiles", "BookingFault"],
         profiles={"quick": [("MCQueryGen_core.cfg", None), ("MCQueryGen_tuples.cfg", None),
                             ("MCQueryGen_let.cfg", None, {"cap": {"quick": 260, "thorough": 3000}}),
-                            ("MCQueryGen_moments.cfg", None, {"backend": "atlas", "cap": {"quick": 160, "thorough": 2000}})] + _ROWS("quick") + _IFFIRST("quick"),
+                            ("MCQueryGen_moments.cfg", None, {"backend": "atlas", "cap": {"quick": 160, "thorough": 2000}})] + _ROWS("quick") + _IFFIRST("quick") + _LETROWS,
                   "thorough": [("MCQueryGen_core_t.cfg", None), ("MCQueryGen_tuples_t.cfg", None), ("MCQueryGen_fault.cfg", None),
                                ("MCQueryGen_let_t.cfg", None, {"cap": {"quick": 260, "thorough": 3000}}),
-                               ("MCQueryGen_moments_t.cfg", None, {"backend": "atlas", "cap": {"quick": 160, "thorough": 2000}})] + _ROWS("thorough") + _IFFIRST("thorough")},
-        cap={"quick": 2200, "thorough": 24000},
+                               ("MCQueryGen_moments_t.cfg", None, {"backend": "atlas", "cap": {"quick": 160, "thorough": 2000}})] + _ROWS("thorough") + _IFFIRST("thorough") + _LETROWS},
+        cap={"quick": 2500, "thorough": 24500},
     ),
     "C02": pcheck.PSpec(
         "C02",
@@ -75,11 +79,11 @@ SPECS = {
     "C05": pcheck.PSpec(
         "C05",
         clauses=["StateCarried", "Compiles", "BookingFault"],
-        profiles={"quick": [("MCQueryGen_core_s.cfg", None)],
-                  "thorough": [("MCQueryGen_core.cfg", None)]},
+        profiles={"quick": [("MCQueryGen_core_s.cfg", None), ("MCQueryGen_rows2.cfg", None, {"cap": {"quick": 330, "thorough": 1500}})],
+                  "thorough": [("MCQueryGen_core.cfg", None), ("MCQueryGen_rows2_t.cfg", None, {"cap": {"quick": 330, "thorough": 1500}})]},
         events={"quick": 8, "thorough": 16},
         seq_mode="histories",
-        cap={"quick": 600, "thorough": 6000},
+        cap={"quick": 930, "thorough": 7500},
     ),
     "C06": pcheck.PSpec(
         "C06",
@@ -132,10 +136,12 @@ SPECS = {
     "C13": pcheck.PSpec(
         "C13",
         clauses=["Accepts", "RowsMatch", "SchemaMatches", "SpuriousFault", "Compiles", "BookingFault"],
-        profiles={"quick": [("MCQueryGen_arithtable.cfg", None), ("MCQueryGen_arith.cfg", None)],
-                  "thorough": [("MCQueryGen_arithtable.cfg", None), ("MCQueryGen_arith.cfg", None)]},
+        profiles={"quick": [("MCQueryGen_arithtable.cfg", None), ("MCQueryGen_arith.cfg", None),
+                            ("MCQueryGen_arithif.cfg", None, {"cap": {"quick": 330, "thorough": 2000}})],
+                  "thorough": [("MCQueryGen_arithtable.cfg", None), ("MCQueryGen_arith.cfg", None),
+                               ("MCQueryGen_arithif_t.cfg", None, {"cap": {"quick": 330, "thorough": 2000}})]},
         events={"quick": 8, "thorough": 16},
-        cap={"quick": 1000, "thorough": 20000},
+        cap={"quick": 1330, "thorough": 22000},
     ),
 }
 
